@@ -235,6 +235,12 @@ class Facts:
                 for st in walk_stmts(f['body']):
                     if st.get('k') == 'for':
                         _desugar_iterator_loop(st)
+        # one spelling for 'is the key in the container': a local iterator from find() that is only compared with end(),
+        # dereferenced or handed back to erase() reads as contains(k) / X[k] / erase(k); count(k) of a unique-key container
+        # reads as contains(k)
+        for f in self.functions:
+            if f.get('body') is not None and not f['file'].endswith('lex.yy.c'):
+                _desugar_lookups(f)
         # front-end health
         bad = [x for x in self.diagnostics if x['level'] == 'error' and x['in_root']]
         if bad:
@@ -446,6 +452,190 @@ def _desugar_iterator_loop(st):
     st.clear()
     st.update(keep)
     st.update({'k': 'rangefor', 'var': var, 'range': cont, 'body': body, 'desugared_from_iterator_loop': True})
+
+
+_STD_MUTATORS = ('insert', 'emplace', 'emplace_back', 'emplace_hint', 'try_emplace', 'insert_or_assign', 'erase', 'clear', 'operator=', 'operator[]',
+                 'push_back', 'pop_back', 'swap', 'operator+=', 'append', 'assign', 'resize', 'merge', 'extract', 'replace', 'push_front', 'pop_front')
+_UNIQUE_ASSOC = ('std::map<', 'std::set<', 'std::unordered_map<', 'std::unordered_set<')
+
+
+def _fresh(e):
+    """deep copy of an expression with fresh statement ids (the copy is a different evaluation)"""
+    if isinstance(e, dict):
+        out = {k: _fresh(v) for k, v in e.items()}
+        if 'sid' in out and out['sid'] is not None:
+            _SYNTH[0] += 1
+            out['sid'] = _SYNTH[0]
+        return out
+    if isinstance(e, list):
+        return [_fresh(x) for x in e]
+    return e
+
+
+def _assoc_ty(obj):
+    t = (strip_casts(obj).get('cty') or '').replace('const ', '') if obj is not None else ''
+    return t if t.startswith(_UNIQUE_ASSOC) else None
+
+
+def _desugar_lookups(f):
+    body = f['body']
+    # count(k) on a unique-key container is contains(k); compared with 0/1 it is a plain (negated) membership test
+    for e in list(walk_all_exprs(body)):
+        if e.get('k') == 'call' and (e.get('callee') or '').endswith('::count') and e.get('obj') is not None and len(e.get('args', [])) == 1 and _assoc_ty(e['obj']):
+            e['callee'] = e['callee'][:-len('count')] + 'contains'
+            if e.get('callee_sig'):
+                e['callee_sig'] = e['callee_sig'].replace('::count(', '::contains(')
+            e['was_count'] = True
+            e['cty'] = 'bool'
+    for e in list(walk_all_exprs(body)):
+        if e.get('k') == 'bin' and e.get('op') in ('==', '!=', '>', '<', '>=', '<='):
+            l, r = strip_casts(e['l']), strip_casts(e['r'])
+            op = e['op']
+            if r is not None and r.get('was_count') and l is not None and l.get('k') == 'int':
+                l, r = r, l
+                op = {'<': '>', '>': '<', '<=': '>=', '>=': '<='}.get(op, op)
+            if l is not None and l.get('was_count') and r is not None and r.get('k') == 'int' and r.get('v') in (0, 1):
+                truth = {('==', 0): False, ('!=', 0): True, ('>', 0): True, ('<=', 0): False, ('==', 1): True, ('!=', 1): False,
+                         ('>=', 1): True, ('<', 1): False}.get((op, r['v']))
+                if truth is None:
+                    continue
+                keep = {k2: e.get(k2) for k2 in ('loc', 'sid')}
+                e.clear()
+                if truth:
+                    e.update(l)
+                    e.update({k2: v2 for k2, v2 in keep.items() if v2 is not None})
+                else:
+                    e.update({'k': 'un', 'op': '!', 'postfix': False, 'cty': 'bool', 'e': l})
+                    e.update(keep)
+    # iterators from find()
+    cands = {}
+    later_defs = {}
+    for x in walk_all_exprs(body):
+        tgt = None
+        if x.get('k') == 'assign':
+            tgt = strip_casts(x['l'])
+        elif x.get('k') == 'un' and x.get('op') in ('++', '--'):
+            tgt = strip_casts(x['e'])
+        elif x.get('k') == 'call' and x.get('obj') is not None and not x.get('method_const', True) and \
+                (x.get('callee_in_repo') or (x.get('callee') or '').split('::')[-1] in _STD_MUTATORS):
+            tgt = strip_casts(x['obj'])
+        if tgt is not None and tgt.get('k') == 'ref' and tgt.get('d') is not None and x.get('loc'):
+            later_defs.setdefault(tgt['d'], []).append(tuple(x['loc'][:2]))
+    for st in walk_stmts(body):
+        vs = st.get('vars', []) if st['k'] == 'decl' else ([st['var']] if st['k'] == 'if' and st.get('var') else [])
+        for v in vs:
+            i0 = strip_conv(strip_casts(v.get('init'))) if v.get('init') is not None else None
+            if i0 is None or i0.get('k') != 'call' or not (i0.get('callee') or '').endswith('::find') or i0.get('obj') is None or len(i0.get('args', [])) != 1:
+                continue
+            if not _assoc_ty(i0['obj']) or v.get('is_ref'):
+                continue
+            key = strip_conv(strip_casts(i0['args'][0]))
+            # the key (and the container expression) must mean the same thing wherever the iterator is used
+            stable = True
+            for y in list(walk_expr(key)) + list(walk_expr(i0['obj'])):
+                if y.get('k') == 'call' and not (y.get('k') == 'call' and y.get('ck') == 'operator' and y.get('op') in ('+', '-')):
+                    stable = False
+                if y.get('k') == 'ref' and y.get('dk') in ('var', 'param') and any(l > tuple(v['loc'][:2]) for l in later_defs.get(y.get('d'), []) if v.get('loc')):
+                    stable = False
+                if y.get('k') in ('un',) and y.get('op') in ('++', '--', '*'):
+                    stable = False
+                if y.get('k') == 'assign':
+                    stable = False
+            if stable and v.get('d') not in later_defs:
+                cands[v['d']] = (v, i0['obj'], key, i0)
+    if not cands:
+        return
+    pats = {d: [] for d in cands}
+    others = set()
+
+    def is_it(x, d=None):
+        x = strip_conv(strip_casts(x)) if x is not None else None
+        if x is not None and x.get('k') == 'ref' and x.get('d') in cands and (d is None or x['d'] == d):
+            return x['d']
+        return None
+
+    def scan(x):
+        if isinstance(x, list):
+            for y in x:
+                scan(y)
+            return
+        if not isinstance(x, dict):
+            return
+        k = x.get('k')
+        if k in ('bin', 'call') and x.get('op') in ('==', '!='):
+            if k == 'bin':
+                sides = [x.get('l'), x.get('r')]
+            else:
+                sides = ([x['obj']] if x.get('obj') is not None else []) + list(x.get('args', []))
+            if len(sides) == 2:
+                for a, b in ((sides[0], sides[1]), (sides[1], sides[0])):
+                    d = is_it(a)
+                    bb = strip_conv(strip_casts(b)) if b is not None else None
+                    if d is not None and bb is not None and bb.get('k') == 'call' and (bb.get('callee') or '').split('::')[-1] in ('end', 'cend') and \
+                            bb.get('obj') is not None and show(strip_casts(bb['obj'])) == show(strip_casts(cands[d][1])):
+                        pats[d].append(('cmp', x))
+                        return
+        if k == 'member' and x.get('name') in ('first', 'second') and x.get('base') is not None:
+            b = strip_casts(x['base'])
+            if b is not None and b.get('k') == 'paren':
+                b = strip_casts(b['e'])
+            if b is not None and b.get('k') == 'call' and b.get('op') in ('->', '*') and b.get('obj') is not None and not b.get('args') and is_it(b['obj']) is not None:
+                pats[is_it(b['obj'])].append((x['name'], x))
+                return
+        if k == 'call' and x.get('op') == '*' and x.get('obj') is not None and not x.get('args') and is_it(x['obj']) is not None and \
+                cands[is_it(x['obj'])][1] is not None and _assoc_ty(cands[is_it(x['obj'])][1]).startswith(('std::set<', 'std::unordered_set<')):
+            pats[is_it(x['obj'])].append(('elem', x))
+            return
+        if k == 'call' and (x.get('callee') or '').endswith('::erase') and x.get('obj') is not None and len(x.get('args', [])) == 1 and is_it(x['args'][0]) is not None and \
+                show(strip_casts(x['obj'])) == show(strip_casts(cands[is_it(x['args'][0])][1])):
+            pats[is_it(x['args'][0])].append(('erase', x))
+            scan(x['obj'])
+            return
+        if k == 'ref' and x.get('d') in cands:
+            others.add(x['d'])
+            return
+        for kk, v in x.items():
+            if kk == 'vars':
+                for vv in v:
+                    scan(vv.get('init'))
+            elif isinstance(v, (dict, list)):
+                scan(v)
+    scan(body)
+    for d, (v, X, key, find) in cands.items():
+        if d in others or not pats[d]:
+            continue
+        for kind, x in pats[d]:
+            keep = {k2: x.get(k2) for k2 in ('loc', 'sid')}
+            cty = x.get('cty')
+            if kind == 'cmp':
+                present = x.get('op') == '!='
+                c = {'k': 'call', 'ck': 'method', 'callee': find['callee'][:-len('find')] + 'contains', 'callee_rec': find.get('callee_rec'),
+                     'callee_in_repo': False, 'obj': _fresh(X), 'args': [_fresh(key)], 'cty': 'bool', 'arrow': False, 'method_const': True,
+                     'method_static': False, 'from_find': v['name'], 'loc': keep['loc']}
+                x.clear()
+                if present:
+                    x.update(c)
+                    x['sid'] = keep['sid']
+                else:
+                    _SYNTH[0] += 1
+                    c['sid'] = _SYNTH[0]
+                    x.update({'k': 'un', 'op': '!', 'postfix': False, 'cty': 'bool', 'e': c})
+                    x.update(keep)
+            elif kind == 'second':
+                x.clear()
+                # at(): the element of a key that is present, and no insertion when it is not (like the dereference it replaces)
+                x.update({'k': 'call', 'ck': 'method', 'callee': find['callee'][:-len('find')] + 'at', 'callee_rec': find.get('callee_rec'),
+                          'callee_in_repo': False, 'obj': _fresh(X), 'args': [_fresh(key)], 'cty': cty, 'arrow': False, 'method_const': True,
+                          'method_static': False, 'from_find': v['name']})
+                x.update(keep)
+            elif kind in ('first', 'elem'):
+                x.clear()
+                x.update(_fresh(key))
+                x.update({k2: v2 for k2, v2 in keep.items() if v2 is not None})
+            elif kind == 'erase':
+                x['args'] = [_fresh(key)]
+                x['from_find'] = v['name']
+        v['desugared_lookup'] = True
 
 
 def walk_all_exprs(s):
